@@ -201,6 +201,8 @@ class SecInterp(object):
             st = (dict(st[0]), dict(st[1]), dict(st[2]))
             self.block(b, st, False)
             for s in f.succ.get(b, []):
+                if (b, s) in getattr(self.p1, "dead_edges", ()):
+                    continue
                 if s not in states:
                     states[s] = (dict(st[0]), dict(st[1]), dict(st[2]))
                     if s not in inwork:
